@@ -284,6 +284,46 @@ theorem keyString_neg (u : Uni) (k : Key) (h : k.keycode < 0) :
   have e2 : ¬ k.keycode = 8 := by omega
   simp only [e1, e2, h, if_true, if_false]
 
+theorem wrap32_idem (x : Int) : wrap32 (wrap32 x) = wrap32 x := by
+  have := wrap32_range x
+  unfold wrap32 at this ⊢
+  simp only at this ⊢
+  split <;> split <;> omega
+
+theorem textRune_wrap (x : Int) : textRune (wrap32 x) = textRune x := by
+  unfold textRune; rw [wrap32_idem]
+
+/-- Only the residues modulo 2^32 of the rune-typed fields matter, and nothing after the third parameter. -/
+theorem csiFieldsNE_normal (ps : List (List Int)) (fin : Int) :
+    csiFieldsNE ps fin = csiFieldsNE (csiNormal ps) fin := by
+  have ht : (textRune ∘ wrap32) = textRune := by funext x; exact textRune_wrap x
+  match ps with
+  | [] => rfl
+  | [p0] =>
+    rcases p0 with _ | ⟨a, _ | ⟨b, _ | ⟨c, r⟩⟩⟩ <;>
+      simp [csiNormal, csiFieldsNE, isShiftTab, csiKeyOf, isModifyOther, wrap32_idem]
+  | [p0, p1] =>
+    rcases p0 with _ | ⟨a, _ | ⟨b, _ | ⟨c, r⟩⟩⟩ <;>
+      simp [csiNormal, csiFieldsNE, isShiftTab, csiKeyOf, isModifyOther, wrap32_idem]
+  | p0 :: p1 :: p2 :: rest =>
+    rcases p0 with _ | ⟨a, _ | ⟨b, _ | ⟨c, r⟩⟩⟩ <;> rcases p2 with _ | ⟨d, t⟩ <;>
+      simp [csiNormal, csiFieldsNE, isShiftTab, csiKeyOf, isModifyOther, wrap32_idem, textRune_wrap, ht]
+
+theorem csiFields_normal (params : List (List Int)) (fin : Int) :
+    csiFields params fin = csiFields (csiNormal params) fin := by
+  unfold csiFields
+  match params with
+  | [] => rfl
+  | [p0] => simpa [csiNormal] using csiFieldsNE_normal [p0] fin
+  | [p0, p1] => simpa [csiNormal] using csiFieldsNE_normal [p0, p1] fin
+  | p0 :: p1 :: p2 :: rest => simpa [csiNormal] using csiFieldsNE_normal (p0 :: p1 :: p2 :: rest) fin
+
+/-- A valid code point is a 31-bit non-negative value. -/
+theorem validRune_inRune {c : Int} (hv : validRune c = true) : inRune c := by
+  simp only [validRune, Bool.and_eq_true, decide_eq_true_eq] at hv
+  have hmr : maxRune = 1114111 := rfl
+  exact ⟨hv.1.1, by have := hv.1.2; omega⟩
+
 /-! ## Two events `String()` and `Matches` cannot tell apart, for an arbitrary `unicode` oracle -/
 
 /-- The legacy byte carries the key's own character as text, the kitty report carries no text; the
